@@ -24,19 +24,19 @@ THEOREMS = ['sanitise_printable', 'sanitise_pointwise', 'sanitise_fixed_iff', 'v
             'accept_bare', 'accept_dash', 'accept_software', 'accept_comments',
             'banner_accept', 'banner_accept_nocomment', 'banner_accept_dash', 'banner_accept_bare', 'banner_accept_numeric',
             'multi_version', 'multi_version_199', 'protocol_is_min', 'collapse_joinBlanks', 'comments_words', 'parse_wf', 'shown_printable', 'banner_roundtrip', 'roundtrip_excluded_point',
-            'blank_not_banner', 'header_separation', 'header_never_banner', 'banner_is_a_line',
-            'segmented_witness', 'header_separation_segmented_false']
+            'blank_not_banner', 'segmentation_independence', 'segmentation_any_two', 'segmentation_whole', 'header_separation',
+            'header_separation_unterminated', 'header_never_banner', 'banner_is_a_line', 'd17_repaired']
 TECHNIQUE = ('Lean 4 theorems (structural induction over texts, byte strings and recv sequences; kernel-evaluated witnesses) about a hand-written '
              'deterministic recogniser equivalent to RX_BANNER + differential correspondence with banner.py / utils.py / readbuf.py / ssh_socket.py; '
              'independent by-construction oracle on the real code incl. whole audits over an in-process fake network')
 LEVEL_TEXT = ('Acceptance, decomposition (incl. repeated protocol items), sanitising, printability of everything shown, the render/parse round trip and '
-              'header/banner separation for every whole-line delivery are proved for all inputs of the Lean model (unbounded texts, byte strings and '
+              'header/banner separation independent of how the byte stream is cut into recv() results (segmentation independence, after the D17 repair) are proved for all inputs of the Lean model (unbounded texts, byte strings and '
               'recv sequences); the model is executed by a compiled driver and compared with the real code on grammar-generated, mutated and random '
               'inputs; an independent oracle checks the same statements on the real code, Software.parse against a hand-written product scanner.')
 LEVEL_NOTE = ('Trusted: Lean kernel; the correspondence harness (the regex engine is replaced in the model by a deterministic recogniser whose equivalence is '
               'tested, not proved); CPython re/str/bytes semantics. Round trip is proved for every parsed banner whose software string does not start with '
-              '"SSH-" (the excluded point is proved as roundtrip_excluded_point). Header separation does not hold when the stream is cut inside a line: '
-              'known finding D17, proved as header_separation_segmented_false. Software.parse is not modelled in Lean here (C14 owns that model): oracle only.')
+              '"SSH-" (the excluded point is proved as roundtrip_excluded_point). Header separation is proved for every segmentation of the stream against the repaired get_banner (D17, fix: commit 04fd9e5 in /repo); a banner without line ending is accepted once the peer stops sending (header_separation_unterminated). '
+              'Software.parse is not modelled in Lean here (C14 owns that model): oracle only.')
 
 
 # ---------------------------------------------------------------- naive spec helpers (oracle side; no `re`)
@@ -125,9 +125,11 @@ def banner_dict(b):
 
 
 class ScriptSock:
-    """A socket whose recv() returns the scripted chunks one by one, then b'' (peer closed)."""
-    def __init__(self, chunks):
+    """A socket whose recv() returns the scripted chunks one by one; then the peer has stopped:
+    b'' (closed), socket.timeout, or a connection error."""
+    def __init__(self, chunks, end='close'):
         self.chunks = [bytes(c) for c in chunks]
+        self.end = end
         self.sent = []
         self.recv_calls = 0
 
@@ -136,8 +138,14 @@ class ScriptSock:
         return len(d)
 
     def recv(self, n):
+        import errno
+        import socket
         self.recv_calls += 1
         if not self.chunks:
+            if self.end == 'timeout':
+                raise socket.timeout('timed out')
+            if self.end == 'error':
+                raise ConnectionResetError(errno.ECONNRESET, 'Connection reset by peer')
             return b''
         d = self.chunks.pop(0)
         if len(d) > n:
@@ -155,14 +163,14 @@ class ScriptSock:
         pass
 
 
-def impl_getbanner(chunks):
+def impl_getbanner(chunks, end='close'):
     from ssh_audit.ssh_socket import SSH_Socket
     from ssh_audit.outputbuffer import OutputBuffer
     s = SSH_Socket(OutputBuffer(), 'localhost', 22)
-    fs = ScriptSock(chunks)
+    fs = ScriptSock(chunks, end)
     s._SSH_Socket__sock = fs
     banner, header, err = s.get_banner()
-    return {'banner': banner_dict(banner), 'header': list(header), 'unread': s.read(s.unread_len).hex()}
+    return {'banner': banner_dict(banner), 'header': list(header), 'unread': s.read(s.unread_len).hex(), 'pending': [c.hex() for c in fs.chunks]}
 
 
 def impl_readlines(data):
@@ -207,7 +215,7 @@ def impl(op, arg):
     if op == 'readlines':
         return impl_readlines(arg)
     if op == 'getbanner':
-        return impl_getbanner(arg)
+        return impl_getbanner(arg[0], arg[1])
     if op == 'uspace.table':
         return [i for i in range(0x110000) if not 0xd800 <= i < 0xe000 and chr(i).isspace()]
     raise KeyError(op)
@@ -226,7 +234,7 @@ def line_of(op, arg):
     if op in ('utf8.decode', 'readlines'):
         return '%s %s' % (op, tbytes(arg))
     if op == 'getbanner':
-        return '%s %s' % (op, '_' if not arg else ','.join(tbytes(c) for c in arg))
+        return '%s %s' % (op, '_' if not arg[0] else ','.join(tbytes(c) for c in arg[0]))
     if op == 'uspace.table':
         return op
     return '%s %s' % (op, tstr(arg))
@@ -405,33 +413,49 @@ def is_banner_shaped(text):
     return j < len(s) and s[j] in DIGITS
 
 
-def gen_stream(r, mode):
+SEGMENTED = ('segmented', 'bytes', 'crlf', 'every-offset', 'unterminated')
+
+
+def cut_at(data, cuts):
+    pts = [0] + sorted(set(c for c in cuts if 0 < c < len(data))) + [len(data)]
+    return [data[a:b] for a, b in zip(pts, pts[1:]) if b > a]
+
+
+def gen_stream(r, mode, offset=None, base=None):
     """Header lines, a banner line of the grammar, trailing bytes; delivered in `mode`:
-    one | per-line | groups (whole lines per recv)  /  segmented (cut anywhere)."""
-    while True:
-        g = gen_grammar(r)
-        raw = g['line'].encode('utf-8')
-        # the line ends where the peer ended it: no stray line breaks inside, no control whitespace at the very end
-        if b'\n' in raw or raw.rstrip(b' ') != raw.rstrip(b' \t\r\n\x0b\x0c') or len(raw) > 600:
-            continue
-        break
-    nh = r.choice([0, 0, 1, 1, 2, 3, 4, 6])
-    hdr = []
-    while len(hdr) < nh:
-        h = gen_header_line(r)
-        if is_banner_shaped(header_text(h)):
-            continue
-        hdr.append(h)
-    eol = lambda: r.choice([b'\r\n', b'\r\n', b'\n'])   # noqa: E731
-    lines = [h + eol() for h in hdr] + [raw + eol()]
-    trailing = r.choice([b'', b'', b'\x00\x00\x00\x0c\x04\x14' + b'A' * 10, b'second line\r\nthird', b'SSH-2.0-later\r\n', bytes(r.getrandbits(8) for _ in range(r.randint(1, 40)))])
+    one | per-line | groups: every recv() returns whole lines;
+    segmented (a few cuts anywhere) | bytes (one byte per recv) | crlf (cuts between CR and LF and elsewhere) |
+    every-offset (one cut at the given offset) | unterminated (the banner is the last thing sent, without line ending; any cuts)."""
+    if base is None:
+        while True:
+            g = gen_grammar(r)
+            raw = g['line'].encode('utf-8')
+            # the line ends where the peer ended it: no stray line breaks inside, no control whitespace at the very end
+            if b'\n' in raw or raw.rstrip(b' ') != raw.rstrip(b' \t\r\n\x0b\x0c') or len(raw) > 600:
+                continue
+            break
+        nh = r.choice([0, 0, 1, 1, 2, 3, 4, 6]) if mode != 'bytes' else r.choice([0, 1, 2, 3])
+        hdr = []
+        while len(hdr) < nh:
+            h = gen_header_line(r)
+            if is_banner_shaped(header_text(h)) or (mode == 'bytes' and len(h) > 80):
+                continue
+            hdr.append(h)
+        eol = lambda: r.choice([b'\r\n', b'\r\n', b'\n'])   # noqa: E731
+        lines = [h + eol() for h in hdr] + [raw + (b'' if mode == 'unterminated' else eol())]
+        trailing = r.choice([b'', b'', b'\x00\x00\x00\x0c\x04\x14' + b'A' * 10, b'second line\r\nthird', b'SSH-2.0-later\r\n', bytes(r.getrandbits(8) for _ in range(r.randint(1, 40)))])
+        if mode == 'unterminated':
+            trailing = b''
+        base = (g, hdr, lines, trailing)
+    g, hdr, lines, trailing = base
+    nh = len(hdr)
     whole = b''.join(lines)
+    data = whole + trailing
+    end = 'close'
     if mode == 'one':
-        chunks = [whole + trailing]
-        unread = trailing
+        chunks = [data]
     elif mode == 'per-line':
         chunks = lines + ([trailing] if trailing else [])
-        unread = b''
     elif mode == 'groups':
         chunks, cur = [], b''
         for i, l in enumerate(lines):
@@ -443,19 +467,47 @@ def gen_stream(r, mode):
         chunks.append(cur + (trailing if same else b''))
         if not same and trailing:
             chunks.append(trailing)
-        unread = trailing if same else b''
+    elif mode == 'bytes':
+        chunks = [data[i:i + 1] for i in range(len(data))]
+    elif mode == 'crlf':
+        cuts = [i + 1 for i in range(len(data) - 1) if data[i:i + 2] == b'\r\n']
+        cuts = [c for c in cuts if r.random() < 0.8] + [r.randint(1, max(1, len(data) - 1)) for _ in range(r.choice([0, 0, 1, 2]))]
+        chunks = cut_at(data, cuts)
+    elif mode == 'every-offset':
+        chunks = cut_at(data, [offset])
+    elif mode == 'unterminated':
+        chunks = cut_at(data, [r.randint(1, max(1, len(data) - 1)) for _ in range(r.choice([0, 1, 1, 2, 4]))])
+        end = r.choice(['close', 'timeout', 'error'])
     else:
-        data = whole + trailing
-        ncut = r.choice([1, 1, 2, 3])
-        cuts = sorted(set(r.randint(1, max(1, len(whole) - 1)) for _ in range(ncut)))
-        pts = [0] + cuts + [len(data)]
-        chunks = [data[a:b] for a, b in zip(pts, pts[1:]) if b > a]
-        unread = None   # where the stream was cut must not matter for banner and header; what is left unread depends on it
+        chunks = cut_at(data, [r.randint(1, max(1, len(data) - 1)) for _ in range(r.choice([1, 1, 2, 3, 6]))])
+    if mode != 'unterminated' and r.random() < 0.3:
+        end = r.choice(['timeout', 'error'])
     chunks = [c for c in chunks if c]
     assert all(len(c) <= 2048 for c in chunks)
-    expect = {'banner': g['expect'], 'header': [header_text(h) for h in hdr if header_text(h).strip() != ''], 'unread': None if unread is None else unread.hex()}
-    return {'stream': 'getbanner', 'mode': mode, 'chunks': [c.hex() for c in chunks], 'whole_lines': [l.hex() for l in lines], 'trailing': trailing.hex(),
-            'expect': expect, 'tags': ['stream-' + mode, 'header-lines-%d' % min(nh, 4)] + [t for t in g['tags'] if t.startswith('shape') or t == 'non-printable']}
+    # where the stream is cut must not matter: banner and header are those of the lines, and exactly the bytes behind
+    # the banner line are left for the caller (unread in the buffer, or not yet received)
+    expect = {'banner': g['expect'], 'header': [header_text(h) for h in hdr if header_text(h).strip() != ''], 'after': trailing.hex()}
+    return {'stream': 'getbanner', 'mode': mode, 'end': end, 'chunks': [c.hex() for c in chunks], 'whole_lines': [l.hex() for l in lines], 'trailing': trailing.hex(),
+            'expect': expect, 'tags': ['stream-' + mode, 'end-' + end, 'header-lines-%d' % min(nh, 4)] + [t for t in g['tags'] if t.startswith('shape') or t == 'non-printable']}
+
+
+def gen_every_offset(r):
+    """One short stream, cut once at every possible offset."""
+    while True:
+        c = gen_stream(r, 'one')
+        if sum(len(l) for l in c['whole_lines']) // 2 + len(c['trailing']) // 2 <= 160:
+            break
+    lines = [bytes.fromhex(l) for l in c['whole_lines']]
+    tr = bytes.fromhex(c['trailing'])
+    n = len(b''.join(lines) + tr)
+    # rebuild the parts the expectation came from
+    base_case = c
+    out = []
+    for k in range(1, n):
+        data = b''.join(lines) + tr
+        out.append(dict(base_case, mode='every-offset', chunks=[x.hex() for x in cut_at(data, [k])],
+                        tags=['stream-every-offset'] + [t for t in base_case['tags'] if not t.startswith('stream-')]))
+    return out
 
 
 VERSIONS = ['7.4', '8.9', '10.0', '9.9', '2019.78', '2022.83', '0.52', '0.10.6', '0.7.0', '1.25', '4.62', '0.2.1', '10', '00', '1.2.3.4.5', '3.', '3..4', '.5', '..', '7', '7.', '1.0.']
@@ -562,9 +614,10 @@ def oracle_parse(case):
 def oracle_getbanner(case):
     fs = []
     chunks = [bytes.fromhex(c) for c in case['chunks']]
-    res = guard(lambda: impl_getbanner(chunks))
+    end = case.get('end', 'close')
+    res = guard(lambda: impl_getbanner(chunks, end))
     exp = case['expect']
-    how = 'SSH_Socket.get_banner() over a socket whose recv() returns the listed chunks'
+    how = 'SSH_Socket.get_banner() over a socket whose recv() returns the listed chunks and then reports %s' % {'close': 'end of stream', 'timeout': 'a timeout', 'error': 'a connection error'}[end]
 
     def differs(res):
         if 'ok' not in res:
@@ -576,31 +629,30 @@ def oracle_getbanner(case):
             return 'banner.' + sub[0]['sig']['kind']
         if r['header'] != exp['header']:
             return 'header'
-        if exp['unread'] is not None and r['unread'] != exp['unread']:
-            return 'unread'
+        if r['unread'] + ''.join(r['pending']) != exp['after']:
+            return 'after'
         return None
     d = differs(res)
     if d is not None:
-        if case['mode'] == 'segmented':
+        if case['mode'] in SEGMENTED:
             # the same bytes delivered line by line: if that is right, the cut is the cause (D17)
             lines = [bytes.fromhex(l) for l in case['whole_lines']]
             tr = bytes.fromhex(case['trailing'])
-            ref_case = dict(case, expect=dict(exp, unread=''))
-            ref = guard(lambda: impl_getbanner(lines + ([tr] if tr else [])))
+            wl = dict(case, mode='per-line', chunks=[c.hex() for c in lines + ([tr] if tr else [])])
+            ref = guard(lambda: impl_getbanner(lines + ([tr] if tr else []), end))
             sub = []
             if 'ok' in ref:
-                check_parts(sub, ref_case, ref['ok']['banner'], exp['banner'], how)
+                check_parts(sub, wl, ref['ok']['banner'], exp['banner'], how)
             if 'ok' in ref and not sub and ref['ok']['header'] == exp['header']:
-                _fail(fs, 'segmented_banner', case, res, {'banner': exp['banner'], 'header': exp['header']}, how + ' (delivered as whole lines the same bytes are reported correctly)')
+                _fail(fs, 'segmented_banner', case, res, exp, how + ' (delivered as whole lines the same bytes are reported correctly)')
             else:
                 # wrong even when every recv() returns whole lines: report that simpler delivery
-                wl = dict(ref_case, mode='per-line', chunks=[c.hex() for c in lines + ([tr] if tr else [])])
                 return oracle_getbanner(wl)
         else:
             _fail(fs, 'header_separation', case, res, exp, how, {'part': d.split('.')[0]})
     if 'ok' in res:
         for h in res['ok']['header']:
-            if is_banner_shaped(h) and case['mode'] != 'segmented':
+            if is_banner_shaped(h):
                 _fail(fs, 'banner_in_header', case, h, 'no banner-shaped line among the header lines', how)
     return fs, res
 
@@ -629,11 +681,12 @@ E2E_LISTS = dict(kex=('curve25519-sha256',), key=('ssh-ed25519',), enc=('aes256-
 def run_e2e(case):
     import fakenet
     lines = [bytes.fromhex(l) for l in case['whole_lines']]
-    srv = fakenet.simple_server(banner=lines[-1], pre_banner=b''.join(lines[:-1]), banner_eol=b'', **E2E_LISTS)
-    net = fakenet.FakeNet({('10.0.0.1', 22): srv})
-    code, text = fakenet.run_main(['-n', '--skip-rate-test', '10.0.0.1'], net)
-    net2 = fakenet.FakeNet({('10.0.0.1', 22): fakenet.simple_server(banner=lines[-1], pre_banner=b''.join(lines[:-1]), banner_eol=b'', **E2E_LISTS)})
-    code2, js = fakenet.run_main(['-j', '--skip-rate-test', '10.0.0.1'], net2)
+    seg = case.get('segment')
+
+    def srv():
+        return fakenet.simple_server(banner=lines[-1], pre_banner=b''.join(lines[:-1]), banner_eol=b'', segment=seg, **E2E_LISTS)
+    code, text = fakenet.run_main(['-n', '--skip-rate-test', '10.0.0.1'], fakenet.FakeNet({('10.0.0.1', 22): srv()}))
+    code2, js = fakenet.run_main(['-j', '--skip-rate-test', '10.0.0.1'], fakenet.FakeNet({('10.0.0.1', 22): srv()}))
     return code, text, code2, js
 
 
@@ -643,7 +696,7 @@ def oracle_e2e(case):
     exp = case['expect']
     eb = exp['banner']
     code, text, code2, js = run_e2e(case)
-    how = "ssh-audit -n 10.0.0.1 / ssh-audit -j 10.0.0.1 against harness/fakenet (header lines, banner, KEXINIT)"
+    how = 'ssh-audit -n 10.0.0.1 / ssh-audit -j 10.0.0.1 against harness/fakenet (header lines, banner, KEXINIT; segment=%r)' % (case.get('segment'),)
     rendered = 'SSH-%d.%d' % tuple(eb['protocol']) + ('-' + eb['software'] if eb['software'] is not None else '') + (' ' + eb['comments'] if eb['comments'] else '')
     tl = text.split('\n')
     if '(gen) banner: ' + rendered not in tl:
@@ -687,12 +740,17 @@ CORPUS = [
     {'stream': 'parse', 'line': 'SSH-2.0-dropbear_2019.78 caf\u00e9\t!', 'expect': {'protocol': [2, 0], 'protocol_any': [[2, 0]], 'software': 'dropbear_2019.78', 'comments': 'caf??!', 'valid': False}},
     {'stream': 'parse', 'line': 'SSH-2.0', 'expect': {'protocol': [2, 0], 'protocol_any': [[2, 0]], 'software': None, 'comments': None, 'valid': True}},
     {'stream': 'parse', 'line': 'SSH-2.0-', 'expect': {'protocol': [2, 0], 'protocol_any': [[2, 0]], 'software': '', 'comments': None, 'valid': True}},
-    # D17 witness (known finding): the banner line cut in two
-    {'stream': 'getbanner', 'mode': 'segmented', 'chunks': [b'SSH-2.0-Open'.hex(), b'SSH_8.0\r\n'.hex()], 'whole_lines': [b'SSH-2.0-OpenSSH_8.0\r\n'.hex()], 'trailing': '',
-     'expect': {'banner': {'protocol': [2, 0], 'protocol_any': [[2, 0]], 'software': 'OpenSSH_8.0', 'comments': None, 'valid': True}, 'header': [], 'unread': None}},
-    {'stream': 'getbanner', 'mode': 'one', 'chunks': [b'hello\r\n\r\n  SSH-2.0-not\r\nSSH-2.0-x y\r\nrest'.hex()], 'whole_lines': [b'hello\r\n'.hex(), b'\r\n'.hex(), b'  SSH-2.0-not\r\n'.hex(), b'SSH-2.0-x y\r\n'.hex()],
+    # D17 witnesses (repaired in /repo, commit 04fd9e5): a line cut by segmentation
+    {'stream': 'getbanner', 'mode': 'segmented', 'end': 'close', 'chunks': [b'SSH-2.0-Open'.hex(), b'SSH_8.0\r\n'.hex()], 'whole_lines': [b'SSH-2.0-OpenSSH_8.0\r\n'.hex()], 'trailing': '',
+     'expect': {'banner': {'protocol': [2, 0], 'protocol_any': [[2, 0]], 'software': 'OpenSSH_8.0', 'comments': None, 'valid': True}, 'header': [], 'after': ''}},
+    {'stream': 'getbanner', 'mode': 'segmented', 'end': 'timeout', 'chunks': [b'Wel'.hex(), b'come\r'.hex(), b'\nSSH-2.0-x y\r'.hex(), b'\n\x00\x00'.hex(), b'\x01'.hex()],
+     'whole_lines': [b'Welcome\r\n'.hex(), b'SSH-2.0-x y\r\n'.hex()], 'trailing': b'\x00\x00\x01'.hex(),
+     'expect': {'banner': {'protocol': [2, 0], 'protocol_any': [[2, 0]], 'software': 'x', 'comments': 'y', 'valid': True}, 'header': ['Welcome'], 'after': b'\x00\x00\x01'.hex()}},
+    {'stream': 'getbanner', 'mode': 'unterminated', 'end': 'timeout', 'chunks': [b'hi\nSSH-2.0-Open'.hex(), b'SSH_8.0'.hex()], 'whole_lines': [b'hi\n'.hex(), b'SSH-2.0-OpenSSH_8.0'.hex()], 'trailing': '',
+     'expect': {'banner': {'protocol': [2, 0], 'protocol_any': [[2, 0]], 'software': 'OpenSSH_8.0', 'comments': None, 'valid': True}, 'header': ['hi'], 'after': ''}},
+    {'stream': 'getbanner', 'mode': 'one', 'end': 'close', 'chunks': [b'hello\r\n\r\n  SSH-2.0-not\r\nSSH-2.0-x y\r\nrest'.hex()], 'whole_lines': [b'hello\r\n'.hex(), b'\r\n'.hex(), b'  SSH-2.0-not\r\n'.hex(), b'SSH-2.0-x y\r\n'.hex()],
      'trailing': b'rest'.hex(),
-     'expect': {'banner': {'protocol': [2, 0], 'protocol_any': [[2, 0]], 'software': 'x', 'comments': 'y', 'valid': True}, 'header': ['hello', '  SSH-2.0-not'], 'unread': b'rest'.hex()}},
+     'expect': {'banner': {'protocol': [2, 0], 'protocol_any': [[2, 0]], 'software': 'x', 'comments': 'y', 'valid': True}, 'header': ['hello', '  SSH-2.0-not'], 'after': b'rest'.hex()}},
 ]
 
 
@@ -723,10 +781,12 @@ def gen_e2e(r):
     while True:
         c = gen_stream(r, 'one')
         eb = c['expect']['banner']
-        # the scripted peer speaks SSH-2 right after its banner; everything up to the banner's LF fits one recv()
+        # the scripted peer speaks SSH-2 right after its banner
         if eb['protocol'] != [2, 0] or c['trailing'] or sum(len(l) for l in c['whole_lines']) // 2 > 2048:
             continue
-        return dict(c, stream='e2e', tags=['e2e'] + c['tags'][1:])
+        n = sum(len(l) for l in c['whole_lines']) // 2
+        seg = r.choice([None, None, 1, 2, 3, 7, 16, 100, sorted(set(r.randint(1, max(1, n - 1)) for _ in range(r.choice([1, 2, 4]))))])
+        return dict(c, stream='e2e', segment=seg, tags=['e2e', 'e2e-whole' if seg is None else 'e2e-segmented'] + c['tags'][1:])
 
 
 def run(ctx):
@@ -766,7 +826,7 @@ def run(ctx):
                 ops.append(('banner.rx', c['line']))
                 ops.append(('banner.reparse', c['line']))
             elif c['stream'] == 'getbanner':
-                ops.append(('getbanner', [bytes.fromhex(x) for x in c['chunks']]))
+                ops.append(('getbanner', ([bytes.fromhex(x) for x in c['chunks']], c.get('end', 'close'))))
         correspond(ops)
         for c in cases:
             fs, obs = ORACLES[c['stream']](c)
@@ -791,19 +851,24 @@ def run(ctx):
         k = min(50000, n_lines - done)
         process([gen_grammar(r) if i % 10 < 6 else gen_mutation(r) for i in range(k)])
         done += k
-    for mode, k in (('one', 4), ('per-line', 3), ('groups', 3), ('segmented', 2)):
-        process([gen_stream(r, mode) for _ in range(ctx.scale(800, 12000) * k)])
+    for mode, k in (('one', 2), ('per-line', 2), ('groups', 2), ('segmented', 6), ('crlf', 3), ('unterminated', 3), ('bytes', 1)):
+        process([gen_stream(r, mode) for _ in range(ctx.scale(400, 8000) * k)])
+    for _ in range(ctx.scale(12, 300)):
+        process(gen_every_offset(r))
+    # a peer that closes in the middle of the script (an empty recv() result): correspondence only
+    correspond([('getbanner', ([bytes.fromhex(x) for x in c['chunks'][:k]] + [b''] + [bytes.fromhex(x) for x in c['chunks'][k:]], 'close'))
+                for c in (gen_stream(r, 'segmented') for _ in range(ctx.scale(600, 6000))) for k in [r.randint(0, len(c['chunks']))]])
     process([gen_software(r) for _ in range(ctx.scale(15000, 200000))])
     process([gen_e2e(r) for _ in range(ctx.scale(200, 2000))])
     correspond(extra_ops(ctx, r))
     return {'failures': failures, 'mismatches': mismatches, 'coverage': cov, 'corr_cases': corr[0],
             'assumptions': ['the regular-expression engine is represented in the model by a deterministic recogniser; its agreement with `re` (match / no match, all four groups, the findall pairs) is tested on every generated line (banner.rx), not proved',
                             'int() of the minor-version digits is total: fewer than 4300 digits (a line read by get_banner has at most 2048 bytes)',
-                            'get_banner is modelled on a connected socket without a cached banner; every recv() result is at most 2048 bytes and an exhausted script reads as "peer closed"; timeouts and socket errors end the loop the same way and are not distinguished',
+                            'get_banner is modelled on a connected socket without a cached banner; every recv() result is at most 2048 bytes; an exhausted script means the peer has stopped: close, timeout and connection error end the loop the same way in the model (all three are exercised against the real code), the error text returned is not modelled',
                             'Software.parse is checked by the oracle only (hand-written scanner + by-construction expectations); its Lean model belongs to C14'],
             'observations': ['round trip: a software string that itself starts with "SSH-" (only reachable through the lenient blank-skipping after the dash, e.g. "SSH-1.5- SSH-3.0-bar") is re-read as a further protocol item; excluded from the round-trip statement (roundtrip_excluded_point)',
                              'several protocol items: the one reported is the minimum in the order of the digit *strings* ("SSH-1.5-SSH-1.10-x" reports 1.10, numerically the larger one); the oracle asserts the minimum only where both orders agree',
-                             'a line without LF at the end of a recv() result is treated as complete (root of D17)']}
+                             'an unterminated last line is read as a line once recv() reports that the peer has stopped (closed, timed out, failed): the tool then waits one timeout for a banner sent without line ending']}
 
 
 def replay(obj):
